@@ -227,10 +227,27 @@ func stateListOrArrayT(s *scanner, c byte) int {
 		s.step = stateArrayT
 		return scanListType
 	}
+	if isSpace(c) {
+		s.step = stateListOrArrayTSpace
+		return scanSkipSpace
+	}
 	if isAllowedInUnquotedString(c) {
 		// not an array prefix, but a longer unquoted string
 		s.step = stateInUnquotedString
 		return scanContinue
+	}
+	return stateEndValue(s, c)
+}
+
+// stateListOrArrayTSpace is the state after reading `[B `:
+// either the ';' of an array prefix follows, or "B" was a list element.
+func stateListOrArrayTSpace(s *scanner, c byte) int {
+	if isSpace(c) {
+		return scanSkipSpace
+	}
+	if c == ';' {
+		s.step = stateArrayT
+		return scanListType
 	}
 	return stateEndValue(s, c)
 }
@@ -357,6 +374,9 @@ func stateEndValue(s *scanner, c byte) int {
 		return stateEndTop(s, c)
 	}
 	if isSpace(c) {
+		// The value is complete: what follows the space
+		// must not be taken for a continuation of it.
+		s.step = stateEndValue
 		return scanSkipSpace
 	}
 
